@@ -702,7 +702,12 @@ pub fn decode_message(b: &[u8], rule: PtrRule, strict_pointers: bool) -> Result<
             }
             let rd = decode_rdata(b, ro, rdlen, class, typ, rule).map_err(|e| format!("section {sec} record {k} (type {typ}): {e}"))?;
             for (a, t_, comp) in &rd.pointers {
-                if strict_pointers && !m.label_starts.contains(t_) {
+                // A pointer inside RDATA may also target a label of an
+                // earlier name of the same RDATA (e.g. SOA RNAME compressed
+                // onto MNAME): labels of this RDATA that start before the
+                // pointer.
+                let own_earlier = rd.label_offsets.iter().any(|o| o == t_ && *o >= ro && *o < *a);
+                if strict_pointers && !m.label_starts.contains(t_) && !own_earlier {
                     return Err(format!("pointer at {a} targets {t_}, which is not the start of a label of an earlier name"));
                 }
                 m.pointers.push(PtrInfo {
